@@ -13,6 +13,7 @@ LEDGERS = {
     'uncovered_sale': '2020-06-01 BUY AAA 10 @ 5\n2020-07-01 SELL AAA 40 @ 8\n',
     'missing_exemption': '2030-06-01 BUY AAA 10 @ 5\n2030-07-01 SELL AAA 4 @ 8\n',
     'missing_rate': '2031-01-05 BUY AAA 10 @ 5 USD\n2031-02-01 SELL AAA 4 @ 8\n',
+    'unlisted_currency': '2024-01-15 BUY AAA 10 @ 5 GIP\n2024-02-01 SELL AAA 4 @ 8 FEES 1 XAU\n',
 }
 BAD_RATES = ('<?xml version="1.0" encoding="UTF-8"?>\n<exchangeRateMonthList Period="01/Feb/2024 to 29/Feb/2024">\n'
              '<exchangeRate><countryName>X</countryName><countryCode>XX</countryCode><currencyName>X</currencyName>'
